@@ -1291,8 +1291,12 @@ func (r *Resolver) getTrigger(id uint64, owner *subscriptionUpdater) (*trigger, 
 
 // markTriggerInitialized marks a trigger as initialized and reports it.
 func (r *Resolver) markTriggerInitialized(triggerID uint64, owner *subscriptionUpdater) {
-	trig, ok := r.getTrigger(triggerID, owner)
-	if !ok {
+	// Look up, mark and report under one lock: a removal that ran in between would read
+	// initialized == false (no TriggerCountDec) and the increment below would never be undone.
+	r.mu.Lock()
+	defer r.mu.Unlock()
+	trig, ok := r.triggers[triggerID]
+	if !ok || trig.updater != owner {
 		return
 	}
 	trig.initialized.Store(true)
